@@ -45,6 +45,12 @@ structure St where
   bAmt : Nat := 0              -- out within ±1 of min / max / bandwidth
   bExp : Nat := 0              -- expiry within ±1 of a time-lock threshold
   facts : Nat := 0
+  sw : Nat := 0
+  swLocal : Nat := 0
+  swForwarded : Nat := 0
+  swMixed : Nat := 0           -- switch evaluations with both an admissible and a rejecting candidate
+  swNotRequested : Nat := 0    -- forwarded over a link other than the requested one
+  swNodeMode : Nat := 0
   clauseCounts : List (String × Nat) := []   -- MONITOR lines printed per clause (capped per clause)
 
 def mismatch (s : St) (detail : String) : IO St := do
@@ -106,14 +112,65 @@ def countVerdict (s : St) (v : String) : St :=
   | "IncorrectCltvExpiry" => { s with vCltv := s.vCltv + 1 }
   | _ => { s with vOther := s.vOther + 1 }
 
+/-- exact rules of one link from the integers on the line -/
+def mkRules (min max base rate tld rej maxcltv bw inc out ein eout h ib ir : Int) : Rules :=
+  let outFee : Int := base + truncDiv (out * rate) 1000000
+  let x : Int := out + outFee
+  let inFee : Int := ib + truncDiv (clampM ir * x) 1000000
+  let req : Int := inFee + outFee
+  let domFee := decide (inc ≤ 10000000000000) && decide (out ≤ 10000000000000) &&
+    decide (base < 4294967296) && decide (rate ≤ 1000000) && isI32 ib && isI32 ir
+  let domExp := decide (h < 2147483648) && decide (eout < 2147483648) &&
+    decide (rej < 2147483648) && decide (maxcltv < 2147483648)
+  { feeOk := decide (out ≤ inc) && decide (req ≤ inc - out)
+    minOk := decide (min ≤ out)
+    maxOk := decide (max = 0) || decide (out ≤ max)
+    soonOk := decide (h + rej < eout)
+    farOk := decide (eout ≤ h + maxcltv)
+    bwOk := decide (out ≤ bw)
+    deltaOk := decide (tld ≤ ein - eout)
+    dmaxOk := decide (ein - eout ≤ maxcltv)
+    domFee := domFee
+    domExp := domExp
+    inbOverflow := domFee && decide (absI (clampM ir) * x ≥ 9223372036854775808)
+    req := req }
+
+/-- first rule of the link that is violated on the inputs (wrap-prone rules only inside their
+    realistic domain): `(rule name, known-finding tag)` -/
+def firstViolated (isFwd : Bool) (r : Rules) : Option (String × String) :=
+  let feeTag := if r.inbOverflow then "+inbound-overflow" else ""
+  if isFwd && !r.feeOk && r.domFee then some ("fee", feeTag)
+  else if !r.minOk then some ("min-htlc", "")
+  else if !r.maxOk then some ("max-htlc", "")
+  else if !r.soonOk && r.domExp then some ("expiry-too-soon", "")
+  else if !r.farOk && r.domExp then some ("expiry-too-far", "")
+  else if !r.bwOk then some ("bandwidth", "")
+  else if isFwd && !r.deltaOk then some ("cltv-delta", "")
+  else if isFwd && !r.dmaxOk then some ("cltv-delta-max", "")
+  else none
+
+/-- every rule holds and the inputs are inside the realistic domain of every rule -/
+def surelyForwardable (isFwd : Bool) (r : Rules) : Bool :=
+  (r.feeOk || !isFwd) && r.minOk && r.maxOk && r.soonOk && r.farOk && r.bwOk &&
+    (r.deltaOk || !isFwd) && (r.dmaxOk || !isFwd) && (r.domFee || !isFwd) && r.domExp
+
+/-- candidate links of a switch-level line (scid := position on the line) with their exact rules -/
+def mkCands (inc out ein eout h ib ir : Int) (k : Nat) (b : List Int) (fuel : Nat) : List (Cand × Rules) :=
+  match fuel, b with
+  | fuel + 1, e :: mn :: mx :: ba :: ra :: tl :: rj :: mc :: bw :: tail =>
+    (⟨k, e != 0, ⟨mn.toNat, mx.toNat, ba.toNat, ra.toNat, tl.toNat⟩, ⟨rj.toNat, mc.toNat, bw.toNat⟩⟩,
+     mkRules mn mx ba ra tl rj mc bw inc out ein eout h ib ir) :: mkCands inc out ein eout h ib ir (k + 1) tail fuel
+  | _, _ => []
+
 /-- The property monitor for one decision. `isFwd = false`: locally sourced HTLC
     (no fee / cltv-delta rules). -/
-def monitorDecision (s : St) (isFwd : Bool) (r : Rules) (impl : String) (desc : String) : IO St := do
+def monitorDecision (s : St) (isFwd : Bool) (r : Rules) (impl : String) (desc : String)
+    (pre : String := "") : IO St := do
   let feeTag := if r.inbOverflow then "+inbound-overflow" else ""
   let known := ["accept", "FeeInsufficient", "AmountBelowMinimum", "TemporaryChannelFailure/HtlcExceedsMax",
     "ExpiryTooSoon", "ExpiryTooFar", "TemporaryChannelFailure/InsufficientBalance", "IncorrectCltvExpiry"]
   if ¬ known.contains impl then
-    return ← monitor s "unexpected-failure" s!"verdict {impl} names no forwarding rule: {desc}"
+    return ← monitor s s!"{pre}unexpected-failure" s!"verdict {impl} names no forwarding rule: {desc}"
   let feeOk := r.feeOk || !isFwd
   let deltaOk := r.deltaOk || !isFwd
   let dmaxOk := r.dmaxOk || !isFwd
@@ -149,8 +206,8 @@ def monitorDecision (s : St) (isFwd : Bool) (r : Rules) (impl : String) (desc : 
     return ← monitor s "unexpected-failure" s!"cltv-delta failure for a locally sourced htlc: {desc}"
   if namedOk && inDomain then
     if allOk && domFee && r.domExp then
-      return ← monitor s s!"accept-complete{tag}" s!"every rule holds (required fee {r.req}) but rejected with {impl}: {desc}"
-    return ← monitor s s!"reject-names-violated-rule{tag}" s!"{impl} but that rule holds (required fee {r.req}): {desc}"
+      return ← monitor s s!"{pre}accept-complete{tag}" s!"every rule holds (required fee {r.req}) but rejected with {impl}: {desc}"
+    return ← monitor s s!"{pre}reject-names-violated-rule{tag}" s!"{impl} but that rule holds (required fee {r.req}): {desc}"
   return s
 
 def verdictOfLine (res : List String) : String × Int :=
@@ -265,6 +322,88 @@ def step (s : St) (line : String) : IO St := do
       if (g == .accept) != (nViol == 0) then s := { s with wrapAffected := s.wrapAffected + 1 }
       return s
     | _ => mismatch s s!"tr: expected 11 integers :: {line.take 80}"
+  | "sw" :: rest | "swl" :: rest =>
+    let isLocal := ws.head? == some "swl"
+    let (args, res) := splitArrow rest
+    let some xs := ints? args | mismatch s "sw: bad integer"
+    -- header
+    let hdrLen := if isLocal then 5 else 10
+    if xs.length < hdrLen then return ← mismatch s s!"sw: short line :: {line.take 80}"
+    let hdr := xs.take hdrLen
+    let body := xs.drop hdrLen
+    let g (k : Nat) : Int := hdr.getD k 0
+    let (mode, req, h, inc, out, ein, eout, ib, ir, n) : Int × Int × Int × Int × Int × Int × Int × Int × Int × Int :=
+      if isLocal then (0, g 0, g 1, 0, g 2, 0, g 3, 0, 0, g 4)
+      else (g 0, g 1, g 2, g 3, g 4, g 5, g 6, g 7, g 8, g 9)
+    if body.length != 9 * n.toNat then return ← mismatch s s!"sw: expected {9 * n.toNat} link integers :: {line.take 80}"
+    let (chosen, impl, payload) : Int × String × Int := match res with
+      | c :: v :: p :: _ => ((int? c).getD (-3), v, (int? p).getD (-2))
+      | _ => (-3, "?", -2)
+    let i : Inputs := ⟨inc.toNat, out.toNat, ein.toNat, eout.toNat, h.toNat, ib, ir⟩
+    -- candidate links (scid := position on the line)
+    let cr := mkCands inc out ein eout h ib ir 0 body n.toNat
+    let cands := cr.map (·.1)
+    let mut s := { s with evals := s.evals + 1 }
+    s := if isLocal then { s with swLocal := s.swLocal + 1 } else { s with sw := s.sw + 1 }
+    if mode == 1 then s := { s with swNodeMode := s.swNodeMode + 1 }
+    -- (X) model: set of admissible links / expected failure
+    let admissible : List Nat :=
+      if isLocal then
+        match cands[req.toNat]? with
+        | some l => (match Gen.getLocalLink (some l) out.toNat eout.toNat h.toNat with
+                     | .forward k => [k] | .fail _ => [])
+        | none => []
+      else (Gen.scanLinks cands i).dests.map (·.scid)
+    let modelFail : Option SwFailure :=
+      if isLocal then
+        (match Gen.getLocalLink (if req < 0 then none else cands[req.toNat]?) out.toNat eout.toNat h.toNat with
+         | .fail f => some f | .forward _ => none)
+      else
+        (match Gen.handlePacketAdd (mode == 1) req.toNat cands 0 i with
+         | .fail f => some f | .forward _ => none)
+    if impl == "accept" then
+      s := { s with swForwarded := s.swForwarded + 1 }
+      if chosen < 0 || !admissible.contains chosen.toNat then
+        s ← mismatch s s!"sw: impl forwarded over link {chosen}, model admits {admissible} :: {line}"
+    else
+      match modelFail with
+      | some f =>
+        if f.wire != impl || f.payload i != payload || chosen != -1 then
+          s ← mismatch s s!"sw: model={f.wire} {f.payload i} impl={impl} {payload} chosen={chosen} :: {line}"
+      | none => s ← mismatch s s!"sw: impl failed with {impl}, model forwards over one of {admissible} :: {line}"
+    -- (S) monitor, exact integers, independent of Gen
+    let isFwd := !isLocal
+    let okIdx := (cr.filter (fun (c, r) => c.eligible && surelyForwardable isFwd r)).map (·.1.scid)
+    let anyReject := cr.any (fun (c, r) => !c.eligible || (firstViolated isFwd r).isSome)
+    if !okIdx.isEmpty && anyReject then s := { s with swMixed := s.swMixed + 1, nontrivial := s.nontrivial + 1 }
+    if impl == "accept" then
+      match (if chosen < 0 then none else cr[chosen.toNat]?) with
+      | none =>
+        s ← monitor s "forwarded-to-no-or-many-links" s!"accepted but the add reached {chosen} :: {line}"
+      | some (c, r) =>
+        if req ≥ 0 && chosen != req then s := { s with swNotRequested := s.swNotRequested + 1 }
+        if isLocal && chosen != req then
+          s ← monitor s "local-forward-over-other-link" s!"locally sourced htlc for link {req} handed to link {chosen} :: {line}"
+        else if !c.eligible then
+          s ← monitor s "forwarded-over-rejecting-link" s!"add handed to link {chosen}, which is not eligible to forward (links admissible by exact rules: {okIdx}) :: {line}"
+        else
+          match firstViolated isFwd r with
+          | some (rule, tag) =>
+            s ← monitor s s!"forwarded-over-rejecting-link{tag}" s!"add handed to link {chosen} whose own policy rejects it (rule {rule}, required fee {r.req}; links admissible by exact rules: {okIdx}) :: {line}"
+          | none => pure ()
+    else
+      if !okIdx.isEmpty && (isFwd || okIdx.contains req.toNat) then
+        s ← monitor s "switch-rejects-forwardable" s!"failed with {impl} although links {okIdx} are eligible and satisfy every rule :: {line}"
+      else if mode == 0 && n > 0 then
+        match (if req < 0 then none else cr[req.toNat]?) with
+        | none => pure ()
+        | some (c, r) =>
+          if impl == "UnknownNextPeer/LinkNotEligible" || impl == "TemporaryChannelFailure/LinkNotEligible" then
+            if c.eligible then
+              s ← monitor s "switch-reject-names-violated-rule" s!"{impl} but the requested link {req} is eligible :: {line}"
+          else if c.eligible then
+            s ← monitorDecision s isFwd r impl line "switch-"
+    return s
   | "efee" :: rest =>
     let (args, res) := splitArrow rest
     let some xs := ints? args | mismatch s "efee: bad integer"
@@ -322,6 +461,12 @@ def main : IO Unit := do
   IO.println s!"STAT transit={s.tr}"
   IO.println s!"STAT expected_fee_calls={s.nEfee}"
   IO.println s!"STAT calc_fee_calls={s.nCalc}"
+  IO.println s!"STAT switch_forward_evals={s.sw}"
+  IO.println s!"STAT switch_local_evals={s.swLocal}"
+  IO.println s!"STAT switch_node_addressed={s.swNodeMode}"
+  IO.println s!"STAT switch_forwarded={s.swForwarded}"
+  IO.println s!"STAT switch_mixed_candidates={s.swMixed}"
+  IO.println s!"STAT switch_forwarded_over_other_than_requested={s.swNotRequested}"
   IO.println s!"STAT in_realistic_domain={s.inDom}"
   IO.println s!"STAT verdict_differs_from_exact_by_wraparound={s.wrapAffected}"
   IO.println s!"STAT inbound_int64_overflow_in_planned_domain={s.inbOverflow}"
